@@ -26,7 +26,9 @@ RULE = (
     "product), cell and point data, plus cross-class pairs (Uniform/Rectilinear/Esri of the same geometry) and "
     "incompatible pairs (different dims, shifted origin, other location, other crs, length-1 vs length-2 axis); data "
     "in the grid's data shape, with a leading time axis of length 1 or 2, in canonical shape or of a wrong shape, "
-    "plain and masked; each pair through the grid methods and through a real Output >> Input link; "
+    "plain and masked; each pair through the grid methods, through a real Output >> Input link, and as a script on "
+    "the link (static output and input read 2-4 times with and without a time; non-static link with 2-3 "
+    "publications each read 1-3 times) where every read is judged; "
     "non-trivial = the grids are compatible and the two layouts differ (a real transformation happens) and the grid "
     "has >= 2 data elements; distinct by canonical case hash"
 )
@@ -144,6 +146,25 @@ def make_case(kind, g, h, mode, rng, masked=None):
     return {"kind": kind, "g": g, "h": h, "mode": mode, "shape": shape, "vals": vals, "masked": masked}
 
 
+SEQ_OFF = 5000  # data set number k carries the location codes + k * SEQ_OFF
+
+
+def make_seq_case(g, h, static, mode, npulls, rng, masked=None):
+    """script on one link: static -> one publication read several times (time None and a time);
+    non-static -> several publications, each read once or more at its own time"""
+    sets = []
+    for k, _ in enumerate(npulls):
+        c = make_case("link", g, h, mode, rng, masked=masked)
+        c["vals"] = [None if v is None else v + k * SEQ_OFF for v in c["vals"]]
+        sets.append({"shape": c["shape"], "vals": c["vals"]})
+    ops = []
+    for k, n in enumerate(npulls):
+        ops.append(["push", k])
+        ops += [["pull"]] * n
+    return {"kind": "linkseq", "g": g, "h": h, "static": bool(static), "mode": mode, "sets": sets, "ops": ops,
+            "masked": any(v is None for d in sets for v in d["vals"])}
+
+
 def layouts(d):
     return [(rev, inc) for rev in (False, True) for inc in itertools.product((True, False), repeat=d)]
 
@@ -243,9 +264,26 @@ CORPUS_SPEC = [
 ]
 
 
+_E = gdesc("esri", 0, (5, 4), "C", True, [True, False], "CELLS")
+CORPUS_SEQ = [
+    # seeded defect C15_b: a static input must not convert its cached data again
+    (_U(False, [True, True], dims=(5, 4)), _U(False, [True, False], dims=(5, 4)), True, "data", [4]),
+    (_U(False, [True, True], dims=(4, 4)), _U(True, [True, True], dims=(4, 4)), True, "data", [3]),
+    (_E, _U(False, [True, True], dims=(5, 4)), True, "time1", [3]),
+    (_U(True, [False, True], "POINTS", dims=(3, 2)), _U(False, [True, False], "POINTS", dims=(3, 2)), True, "data", [2]),
+    # repeated reads on a non-static link
+    (_U(False, [True, True], dims=(5, 4)), _U(True, [True, False], dims=(5, 4)), False, "data", [2, 1, 3]),
+    (_E, _U(False, [False, True], dims=(5, 4)), False, "time1", [1, 2]),
+    # equal layouts / incompatible grids
+    (_U(True, [True, False]), _U(True, [True, False]), True, "data", [3]),
+    (_U(False, [True, True]), _U(False, [True, True], dims=(4, 4)), True, "data", [2]),
+]
+
+
 def generate(rng, tier):
     crng = __import__("random").Random(15)
     cases = [make_case(k, g, h, m, crng) for k, g, h, m in CORPUS_SPEC]
+    cases += [make_seq_case(g, h, st, m, n, crng) for g, h, st, m, n in CORPUS_SEQ]
     pairs = _pairs((3, 2, 2) if tier == "quick" else (4, 3, 2))
     if tier == "quick":
         # deterministic sample of the product, every (dims, loc, source layout) kept at least once
@@ -258,6 +296,11 @@ def generate(rng, tier):
             g = gdesc(cls, geom, dims, rng.choice("CF"), rg, ig, loc)
             h = gdesc(rng.choice(["uniform", "rect"]) if geom == 0 else "rect", geom, dims, rng.choice("CF"), rh, ih, loc)
             cases.append(make_case(kind, g, h, _mode(rng, kind), rng))
+            if kind == "link":
+                # the same pair again as a script: static link read 2-4 times / several publications read repeatedly
+                static = rng.random() < 0.6
+                npulls = [rng.randint(2, 4)] if static else [rng.randint(1, 3) for _ in range(rng.randint(2, 3))]
+                cases.append(make_seq_case(g, h, static, rng.choice(["data", "time1"]), npulls, rng))
     ncross = 500 if tier == "quick" else 5000
     for i in range(ncross):
         cases.append(_cross(rng, "methods" if i % 2 else "link"))
@@ -311,6 +354,8 @@ def attempt(f):
 
 def run_impl(case):
     g, h = build(case["g"]), build(case["h"])
+    if case["kind"] == "linkseq":
+        return run_seq(case, g, h)
     a = to_array(case)
     if case["kind"] == "methods":
         res = [attempt(lambda: g.to_canonical(a)), attempt(lambda: g.from_canonical(a)),
@@ -337,6 +382,37 @@ def run_impl(case):
     return {"res": [attempt(lambda: inp.pull_data(T(0)))], "bools": []}
 
 
+def run_seq(case, g, h):
+    static = case["static"]
+    npull = sum(1 for op in case["ops"] if op[0] == "pull")
+    out = fm.Output(name="Out", static=static)
+    inp = fm.Input(name="In", static=static)
+    out >> inp
+    inp.ping()
+    t0 = None if static else T(0)
+    out.push_info(fm.Info(time=t0, grid=g))
+    try:
+        inp.exchange_info(fm.Info(time=t0, grid=h))
+    except fm.errors.FinamMetaDataError:
+        return {"res": [["err", 2]] * npull, "bools": []}
+    except ValueError:
+        return {"res": [["err", 1]] * npull, "bools": []}
+    res = []
+    tcur = None
+    nread = 0
+    for op in case["ops"]:
+        if op[0] == "push":
+            k = op[1]
+            tcur = None if static else T(1000 * (k + 1))
+            out.push_data(to_array(case["sets"][k]), tcur)
+        else:
+            # a static input is asked alternately without and with a time
+            t = (None if nread % 2 == 0 else T(77)) if static else tcur
+            nread += 1
+            res.append(attempt(lambda: inp.pull_data(t)))
+    return {"res": res, "bools": []}
+
+
 # ---------------------------------------------------------------------------------------------
 # Gallina emitter
 # ---------------------------------------------------------------------------------------------
@@ -350,6 +426,16 @@ def coq_grid(d):
 
 
 def coq_case(case, obs):
+    if case["kind"] == "linkseq":
+        ops = []
+        for op in case["ops"]:
+            if op[0] == "push":
+                d = case["sets"][op[1]]
+                shape = ([1] if case["mode"] == "data" else []) + list(d["shape"])
+                ops.append(Some(P(G.NL(shape), L(VAL(v) for v in d["vals"]))))
+            else:
+                ops.append("(@None (list nat * list val))")
+        return C("CLinkSeq", coq_grid(case["g"]), coq_grid(case["h"]), B(case["static"]), L(ops))
     shape = list(case["shape"])
     if case["kind"] == "link" and case["mode"] == "data":
         shape = [1] + shape  # Output.push_data (tools.prepare) adds the time axis
@@ -376,7 +462,7 @@ def coq_obs(case, obs):
 # ---------------------------------------------------------------------------------------------
 # property monitor
 # ---------------------------------------------------------------------------------------------
-def _expect_located(case, r, d, tn, what):
+def _expect_located(case, r, d, tn, what, off=0):
     """r must hold, at every data index of grid d, the code of its physical location (mask included)"""
     if r[0] != "ok":
         return f"{what}: got {r}"
@@ -390,12 +476,12 @@ def _expect_located(case, r, d, tn, what):
     for t in range(max(tn, 1)):
         for idx in itertools.product(*[range(n) for n in data_shape(src)]):
             if case["vals"][k] is None:
-                masked_codes.add(code(canon_of(src, idx), t))
+                masked_codes.add(code(canon_of(src, idx), t) + off)
             k += 1
     k = 0
     for t in range(max(tn, 1)):
         for idx in itertools.product(*[range(n) for n in ds]):
-            c = code(canon_of(d, idx), t)
+            c = code(canon_of(d, idx), t) + off
             want = None if c in masked_codes else c
             if r[2][k] != want:
                 return (f"{what}: element {([t] if tn else []) + list(idx)} located at canonical index {canon_of(d, idx)} "
@@ -441,6 +527,24 @@ def _monitor(case, obs):
         elif tn is not None:
             return _expect_located(case, res[4], h, tn, "transformed data")
         return None
+    if case["kind"] == "linkseq":
+        k, n = None, 0
+        for op in case["ops"]:
+            if op[0] == "push":
+                k = op[1]
+                continue
+            r = res[n]
+            n += 1
+            if not compat:
+                if r != ["err", 2]:
+                    return f"link between incompatible grids delivered {r[:2]}"
+                continue
+            sub = {"g": g, "vals": case["sets"][k]["vals"]}
+            f = _expect_located(sub, r, h, 1, f"read #{n} of the {'static ' if case['static'] else ''}input "
+                                f"(publication {k})", off=k * SEQ_OFF)
+            if f:
+                return f
+        return None
     # link
     if not compat:
         return None if res[0] == ["err", 2] else f"link between incompatible grids delivered {res[0][:2]}"
@@ -467,6 +571,8 @@ def distribution(cases, obss):
         "kind": dict(Counter(c["kind"] for c in cases)),
         "mode": dict(Counter(c["mode"] for c in cases)),
         "masked": dict(Counter(str(c["masked"]) for c in cases)),
+        "seq_static": dict(Counter(str(c["static"]) for c in cases if c["kind"] == "linkseq")),
+        "seq_reads": dict(Counter(sum(1 for op in c["ops"] if op[0] == "pull") for c in cases if c["kind"] == "linkseq")),
         "dim": dict(Counter(len(c["g"]["dims"]) for c in cases)),
         "classes": dict(Counter(c["g"]["cls"] + ">" + c["h"]["cls"] for c in cases)),
         "compatible": dict(Counter(str(same_located_axes(c["g"], c["h"])) for c in cases)),
@@ -476,5 +582,13 @@ def distribution(cases, obss):
 
 
 def shrink_candidates(case):
+    if case["kind"] == "linkseq":
+        ops = case["ops"]
+        for i in range(len(ops) - 1, 0, -1):
+            if ops[i][0] == "pull" and sum(1 for o in ops if o[0] == "pull") > 1:
+                c = dict(case)
+                c["ops"] = ops[:i] + ops[i + 1:]
+                yield c
+        return
     if case["masked"] and case["mode"] != "wrong":
         yield make_case(case["kind"], case["g"], case["h"], case["mode"], __import__("random").Random(1), masked=False)
